@@ -8,8 +8,8 @@ import tempfile
 
 from hypothesis import strategies as st
 
-DELIMS = [' ', ' ', '\t', ',', ';', '|', '::']
-ENCODINGS = ['utf-8', 'utf-8', 'latin-1', 'ascii']
+DELIMS = [' ', ' ', ' ', '\t', '\t', ',', ',', ';', '|', '::', '{}', '}}', '%s', '\\t']     # incl. format-string and escape look-alikes
+ENCODINGS = ['utf-8', 'utf-8', 'utf-8', 'latin-1', 'ascii', 'utf-8-sig']
 TARGETS = ['plain', 'plain', 'gz', 'bz2', 'gzip', 'fileobj', 'bytesio']
 
 IO_PARAMS = st.fixed_dictionaries({'delim': st.sampled_from(DELIMS), 'enc': st.sampled_from(ENCODINGS),
